@@ -3,6 +3,19 @@
 TECH = 'TLA+ specification model-checked by TLC; '
 
 CHECKS = {
+    'C02': dict(
+        text='MC_Arith.tla runs sessions of one or two dunder calls (@, +, -, unary -, unary +, k*A, A*k, A/k) over 18 operands of '
+             'every kind (plain operators, a composition, a sum, identities, scalar operators, lazy inverses next to their own '
+             'operand, a rotation next to its transpose, operands on incompatible structures) and 5 scalar kinds (int, float, NumPy '
+             'scalar, 0-d JAX array, 1-d array). `res` is the term the dunders of FxAlgebra build (NotImplemented hand-over, '
+             'flattening, identity absorption, scalar merging, own-inverse collapse), `ghost` is plain matrix arithmetic on the '
+             'operand matrices. TLC checks in every state: refused <=> structures mismatch (or non-scalar factor), Den(res) = ghost, '
+             'sizes, and associativity of @ and + over all operand triples (ASSUME). Every one-call session and all (thorough) / a '
+             'stratified sample (quick) of the two-call sessions are evaluated as Python expressions on the real operators: raised '
+             '<=> ghost refused, dense matrix = ghost matrix, in both x64 modes.',
+        note='Singular operands of lazy inverses excluded; NumPy ndarray left factors out of scope; two calls deep.',
+        technique=TECH + 'spec sessions replayed as Python expressions on the real operators, results compared with the ghost matrix',
+        design_ref='DESIGN.md §4 C02'),
     'C03': dict(
         text='MC_Terms.tla enumerates the subjects (every atom of FxSigma - all operator classes incl. dense/einsum, Toeplitz, '
              'diagonal, broadcast-diagonal, index, pack, move-axis, reshape, ravel, QU rotation, HWP, polariser, identity, '
